@@ -675,6 +675,36 @@ func (e *lookupEnv) oracleC18() *trie.Stat {
 	return s
 }
 
+// survivorCheck re-reads an instance that was built and checked earlier, after
+// other tries have been built and loaded since: a built trie must not share
+// mutable memory with the builder or with any other instance.
+func (e *lookupEnv) survivorCheck() {
+	m := e.model
+	st := e.st
+	cur := ""
+	step := 1
+	if len(m.RetKeys) > 400 {
+		step = len(m.RetKeys) / 400
+	}
+	pv, stack := try(func() {
+		for r := 0; r < len(m.RetKeys); r += step {
+			k := m.RetKeys[r]
+			cur = k
+			v, found := st.Get(k)
+			rv, rfound := st.RangeGet(k)
+			if !found || !rfound || !sameVal(v, m.ValAt(r)) || !sameVal(rv, m.ValAt(r)) {
+				e.viol("earlier-instance-changed", k, map[string]interface{}{"what": "an instance that answered correctly before no longer does after other tries were built/loaded",
+					"expected": show(m.ValAt(r)), "Get": []interface{}{show(v), found}, "RangeGet": []interface{}{show(rv), rfound}})
+				return
+			}
+		}
+	})
+	if pv != nil {
+		e.viol("earlier-instance-changed", cur, map[string]interface{}{"panic": fmt.Sprint(pv), "stack": stack})
+	}
+	e.ctx.Count("survivor_rechecks", 1)
+}
+
 // ---- case driver ----------------------------------------------------------
 
 // runLookupCase drives one key/value list through the option sets and
@@ -712,6 +742,7 @@ func runLookupCase(ctx *Ctx, prop string, lc *LCase, caseIdx int) {
 	results := make([]perOpt, 16)
 	opts := allOptSets()
 	sampled := false
+	var prevEnv *lookupEnv
 	for oi, o := range opts {
 		ctx.Beat()
 		if p.onlyCompl && !o.Complete() {
@@ -806,6 +837,12 @@ func runLookupCase(ctx *Ctx, prop string, lc *LCase, caseIdx int) {
 				}
 			}
 		}
+		// the instance of the previous option set is still alive: read it again
+		// now that another trie of the same size has been built and loaded
+		if prevEnv != nil && prop != "C13" {
+			prevEnv.survivorCheck()
+		}
+		violBefore := ctx.nviol
 		var stat0 *trie.Stat
 		for ii, in := range insts {
 			ctx.Beat()
@@ -845,6 +882,13 @@ func runLookupCase(ctx *Ctx, prop string, lc *LCase, caseIdx int) {
 				} else if s != nil && stat0 != nil && fmt.Sprintf("%+v", *s) != fmt.Sprintf("%+v", *stat0) {
 					env.viol("stat-changed-by-roundtrip", "", map[string]interface{}{"fresh": fmt.Sprintf("%+v", *stat0), in.Name: fmt.Sprintf("%+v", *s)})
 				}
+			}
+		}
+		prevEnv = nil
+		if (!lc.Exh || oi%4 == 0) && ctx.nviol == violBefore { // only an instance that answered correctly can "change"
+			prevEnv = &lookupEnv{ctx: ctx, prop: prop, lc: lc, opt: o, model: m, inst: "survivor(fresh)", st: st}
+			if len(insts) > 1 && oi%2 == 1 {
+				prevEnv.st, prevEnv.inst = insts[1].St, "survivor("+insts[1].Name+")"
 			}
 		}
 		if !sampled && !lc.Exh && ctx.WantSample() && n > 0 && n <= 12 {
